@@ -16,6 +16,8 @@ def cstr(s):
 
 def jobs(tier):
     J = []
+    if tier != 'thorough':
+        return J   # 2-15 min of symbolic execution per job: thorough tier only (DESIGN 6.3)
     ns = 3 if tier == 'thorough' else 2
     for i, pf in enumerate(STR_PREFIXES):
         J.append(dict(id='split_str_%02d' % i, harness='h_split', props=['C03'], unwind=max(9, len(pf.replace('\\\\', '\\')) + ns + 4), defs=dict(KIND=0, SUB0=0, PFX=cstr(pf), NS=ns), timeout=900, mem_gb=6,
